@@ -56,26 +56,29 @@ type Scenario struct {
 }
 
 type ServerSide struct {
-	Delivered      bool   `json:"delivered"`
-	ParseErr       string `json:"parse_err,omitempty"`
-	Panic          string `json:"panic,omitempty"`
-	Status         int    `json:"status"`
-	WriteHeaders   int    `json:"write_headers"`
-	Commits        int    `json:"commits"`
-	Explicit       bool   `json:"explicit"`
-	BodyBytes      int    `json:"body_bytes"`
-	WritesAfter    int    `json:"writes_after_return"`
-	WriteErrs      int    `json:"write_errs"`
-	HandlerCalls   int    `json:"handler_calls"`
-	MiddlewareOps  int    `json:"middleware_calls"`
-	ServerSaw      string `json:"server_saw,omitempty"`
-	MiddlewareSaw  string `json:"middleware_saw,omitempty"`
-	ErrBody        string `json:"err_body,omitempty"`
-	Middleware2Saw string `json:"middleware2_saw,omitempty"`
-	SecurityCalls  int    `json:"security_calls"`
-	Allow          string `json:"allow,omitempty"`
-	Returned       bool   `json:"returned"`
-	TempFiles      int    `json:"temp_files"`
+	Delivered            bool   `json:"delivered"`
+	ParseErr             string `json:"parse_err,omitempty"`
+	Panic                string `json:"panic,omitempty"`
+	Status               int    `json:"status"`
+	WriteHeaders         int    `json:"write_headers"`
+	Commits              int    `json:"commits"`
+	Explicit             bool   `json:"explicit"`
+	BodyBytes            int    `json:"body_bytes"`
+	WritesAfter          int    `json:"writes_after_return"`
+	WriteErrs            int    `json:"write_errs"`
+	HandlerCalls         int    `json:"handler_calls"`
+	MiddlewareOps        int    `json:"middleware_calls"`
+	ServerSaw            string `json:"server_saw,omitempty"`
+	MiddlewareSaw        string `json:"middleware_saw,omitempty"`
+	ErrBody              string `json:"err_body,omitempty"`
+	DecodeErrBody        string `json:"decode_err_body,omitempty"`
+	DecodeErrBodyForeign bool   `json:"decode_err_body_foreign,omitempty"`
+	DecodeErrBodyChanged bool   `json:"decode_err_body_changed,omitempty"`
+	Middleware2Saw       string `json:"middleware2_saw,omitempty"`
+	SecurityCalls        int    `json:"security_calls"`
+	Allow                string `json:"allow,omitempty"`
+	Returned             bool   `json:"returned"`
+	TempFiles            int    `json:"temp_files"`
 }
 
 type CallRecord struct {
@@ -564,6 +567,9 @@ func sampleCall(rng *rand.Rand, mode Mode) Call {
 		if c.Op == "echoMultipart" && rng.Intn(4) == 0 {
 			c.Fault = &Fault{Kind: []string{"drop-field", "drop-field", "dup-field"}[rng.Intn(3)], Arg: []string{"name", "count", "file", "extra"}[rng.Intn(4)]}
 		}
+		if f := c.Fault; f != nil && (f.Kind == "drop-field" || f.Kind == "dup-field") && rng.Intn(3) == 0 {
+			f.Val = f.Arg + "=smuggled" // a query pair with the lost field's name is no substitute for the field
+		}
 		if (c.Op == "echoJSON" || c.Op == "echoJSONStream" || c.Op == "variants" || c.Op == "echoShapes") && rng.Intn(8) == 0 {
 			// a re-framing intermediary appends to the body: trailing data after a complete JSON document
 			c.Fault = &Fault{Kind: "append", Arg: []string{"}", "]", ",", "\x00", "\ngarbage", "{}", " null", "1", "\"x\"", " \n\t ", "\n", "}}", ":", "x"}[rng.Intn(14)]}
@@ -808,6 +814,9 @@ func oracleC15(r *CallRecord) []problem {
 		if s.HandlerCalls > 1 {
 			add("handler invoked at most once", fmt.Sprintf("delivery %d: %d handler calls", i, s.HandlerCalls))
 		}
+		if s.DecodeErrBodyForeign || s.DecodeErrBodyChanged {
+			add("the error handler is shown the rejected body of this request, and it stays what it is", fmt.Sprintf("delivery %d: DecodeBodyError.Body is not what was read from this request: %v, changed while the handler held it: %v", i, s.DecodeErrBodyForeign, s.DecodeErrBodyChanged))
+		}
 		if s.HandlerCalls == 0 && s.Explicit && !ogenStatuses[s.Status] {
 			add("a request that does not reach the handler is answered 404/405/401/400/415", fmt.Sprintf("delivery %d: status %d without a handler call", i, s.Status))
 		}
@@ -966,6 +975,9 @@ func oracleC19(alone, conc *CallRecord) []problem {
 		}
 		if a.MiddlewareSaw != c.MiddlewareSaw {
 			add("outcome equals the outcome when run alone: what the middleware saw", firstDiff(a.MiddlewareSaw, c.MiddlewareSaw))
+		}
+		if c.DecodeErrBodyForeign || c.DecodeErrBodyChanged || a.DecodeErrBody != c.DecodeErrBody {
+			add("outcome equals the outcome when run alone: the rejected body the error handler is shown", fmt.Sprintf("digest %q (not this request's: %v, changed while held: %v), alone %q", c.DecodeErrBody, c.DecodeErrBodyForeign, c.DecodeErrBodyChanged, a.DecodeErrBody))
 		}
 		if a.Middleware2Saw != c.Middleware2Saw {
 			add("outcome equals the outcome when run alone: what the second middleware of the chain saw", fmt.Sprintf("%q, alone %q", c.Middleware2Saw, a.Middleware2Saw))
